@@ -137,6 +137,9 @@ var fuzzSeeds = []string{
 	"m mod.pyc 1\nm build7 2\nm a[x] 1\nM ALLOW *.py[co]\nM ALLOW *[0-9]\nM ALLOW *\\[x\\]\nM DISALLOW *",
 	"m pre/main.c 1\ndp out/main.c 1\nM MATCH *\\.c IN pre WITH PRODUCTS IN out FROM dst\nM DISALLOW *",
 	"m dir/x.c 1\np dir/x.c 2\np xya 1\nM MODIFY dir/*.[ch]\nM REQUIRE dir/x.c\nP CREATE *?[ab]\nP ALLOW *[!d]c\nP DISALLOW *",
+	// names with backslashes are ordinary names, different from their slash twins
+	"p src\\evil.sh 1\np ok.txt 1\nP ALLOW ok.txt\nP ALLOW src/*\nP DISALLOW *",
+	"m dist\\pkg 1\nm a\\b 2\np a/b 2\ndp dist/pkg 1\nM MATCH * WITH PRODUCTS FROM dst\nM DISALLOW a\\\\b\nP MODIFY *\nP DISALLOW *",
 	// a MATCH rule referring to the item itself; several items' worth of rule kinds in one list
 	"m x 1\np x 1\np y 3\nM MATCH x WITH PRODUCTS FROM item\nM DISALLOW *\nP MATCH x WITH MATERIALS FROM item\nP CREATE y\nP DISALLOW *",
 }
